@@ -113,7 +113,7 @@ WRend == /\ Is("rend") /\ Step
 (* is dropped with the cancelled consume()) stays in `processing' until its execution timeout + maintenance            *)
 StuckUndelivered(i) == Dev("redis_stop_leaves_in_flight") /\ loc[i].p = 1 /\ holder[i] # NoC /\ ~deliv[i]
 WQuiet == /\ Is("quiet") /\ Step
-          /\ (Has("stop") /\ wc.stop /\ now > wc.stopdl) => wc.ret     \* C03: a stopped worker's run() has returned by then
+          /\ (Has("stop") /\ wc.stop /\ dead = {} /\ now > wc.stopdl) => wc.ret     \* C03: a stopped (not killed) worker's run() has returned by then
           /\ Has("stop") =>
                \A i \in Ids :
                   /\ (ph[i] # "idle" /\ ~StuckUndelivered(i)) => (loc[i].p = 0 /\ ~transit[i])    \* nothing stays in flight
